@@ -3,6 +3,7 @@ import TexcraftModel.Lemmas.C13Trie
 import TexcraftModel.Lemmas.C13Equiv
 import TexcraftModel.Lemmas.C13Plain
 import TexcraftModel.Lemmas.C13Text
+import TexcraftModel.Lemmas.C13Hist
 
 /-!
 # C13 — hyphenation positions are exactly Liang's; exceptions always win; case-insensitive
@@ -390,5 +391,53 @@ example :
     cCalculateIndices (([Op.loadText "a1b 1c".toList, Op.query "abab".toList] ++
         [Op.exc "ab-ab".toList, Op.query "ABAB".toList]).foldl (applyOpG true) {}) asciiLc
       "Abab".toList = some [2] := by decide
+
+/-- For EVERY history — loads, single and multi exception inserts and queries in any order —
+the hyphenator as coded (numbered trie, `holds_exception` test) computes for every word exactly
+what the prefix-map hyphenator computes after the same history. -/
+theorem history_refines (ops : List Op) (hlt : (ops.map opEdges).sum < rootV)
+    (lc : Char → Option Char) (w : List Char) :
+    cAggregateScores (ops.foldl (applyOpG true) {}) lc w
+      = aggregateScores (ops.foldl aApply {}) lc w :=
+  cAggregateScores_eq _ _ (rel_history ops {} {} rel_empty (by simpa using hlt)) lc w
+
+/-- The full statement for arbitrary histories (NOT proved yet, see `notes/C13.md`): every query
+equals the specification of (patterns loaded so far, exceptions inserted so far). -/
+def history_spec_full_statement : Prop :=
+  ∀ (ops : List Op) (lc : Char → Option Char) (w lw : List Char),
+    (ops.map opEdges).sum < rootV →
+    (∀ p ∈ patsOf ops, wellFormed p = true) →
+    (((patsOf ops).map parsePat).map Pat.key).Nodup →
+    lowerWord lc w = some lw →
+    cCalculateIndices (ops.foldl (applyOpG true) {}) lc w
+      = some (specIndices (patsOf ops) (excsOf ops) lw)
+
+/-- What is proved of it: the histories whose loads precede their exception inserts (queries
+anywhere). Missing for the rest: the trie invariant with "an exception beats a later pattern"
+(`Inv` with a winner function instead of `newest`) on the prefix-map side; the coded side is
+done for every history (`history_refines`). -/
+theorem history_spec_partial (A B : List Op) (hA : ∀ o ∈ A, o.isExc = false)
+    (hB : ∀ o ∈ B, o.isLoad = false)
+    (lc : Char → Option Char) (w lw : List Char)
+    (hlt : edgeCount (patsOf (A ++ B)) (excsOf (A ++ B)) < rootV)
+    (hwf : ∀ p ∈ patsOf (A ++ B), wellFormed p = true)
+    (hnd : (((patsOf (A ++ B)).map parsePat).map Pat.key).Nodup)
+    (hl : lowerWord lc w = some lw) :
+    cCalculateIndices ((A ++ B).foldl (applyOpG true) {}) lc w
+      = some (specIndices (patsOf (A ++ B)) (excsOf (A ++ B)) lw) :=
+  history_spec A B hA hB lc w lw hlt hwf hnd hl
+
+/-- Finding C13-b, refutation for the code before `fixes/C13-b.patch` (`guard = false`): the
+exception `ab` is declared, then the pattern `.a1b.` is loaded; the pre-fix code hyphenates
+`a-b`, the specification (and the code as it is now) says `ab`. -/
+example :
+    cCalculateIndices ([Op.exc "ab".toList, Op.loadText ".a1b.".toList].foldl (applyOpG false) {})
+      asciiLc "ab".toList = some [1] := by decide
+example :
+    cCalculateIndices ([Op.exc "ab".toList, Op.loadText ".a1b.".toList].foldl (applyOpG true) {})
+      asciiLc "ab".toList = some [] := by decide
+example :
+    specIndices (patsOf [Op.exc "ab".toList, Op.loadText ".a1b.".toList])
+      (excsOf [Op.exc "ab".toList, Op.loadText ".a1b.".toList]) "ab".toList = [] := by decide
 
 end C13
